@@ -15,13 +15,17 @@ def c08(chk):
                 "and its invariants; (2) a real two-node cluster (proxy timeout 300 ms): seeded randomly shaped "
                 "requests (7 methods, escaped paths and queries, Host vs x-piko-endpoint addressing, repeated "
                 "headers, bodies up to 1 MiB, response status / headers / body up to 200 kB, chunked or not) "
-                "through the local and the forwarded path to an upstream that reports what it saw; then every "
-                "failure mode (no endpoint, absent, go-away, closes before headers, closes mid-body, slower than "
-                "the timeout, slow WebSocket upgrade) on both paths with the time to the answer; judged by TLC "
-                "(TraceH.tla)")
+                "Accept-Encoding / Content-Encoding of the client's and the upstream's choosing) through the local "
+                "and the forwarded path to an upstream that reports what it saw - a listener, or a local service "
+                "behind the agent's reverse proxy; then every failure mode (no endpoint, absent, go-away, closes "
+                "before headers, closes mid-body with and without a Content-Length, slower than the timeout, slow "
+                "WebSocket upgrade, slow other upgrade) on both paths and both kinds of upstream with the time to "
+                "the answer; judged by TLC (TraceH.tla)")
     chk.assumptions = ["equality of bytes and headers is compared by the harness (hash / field by field); TLC sees "
                        "the list of differing fields", "hop-by-hop headers, X-Forwarded-For and x-piko-forward are "
-                       "not part of the comparison", "no-hang limit = timeout + 1.5 s"]
+                       "not part of the comparison", "no-hang limit = timeout + 1.5 s",
+                       "the agent is configured with http_client.disable_compression: true (with the documented "
+                       "default its transport negotiates gzip with the local service on its own)"]
     with vp.Scratch("mc-C08") as d:
         vp.copy_specs(d, ["HttpMap"])
         res = vp.run_tlc(d, "HttpMap", vp.cfg_text("Spec", {}, H_INV, [], None), timeout=600)
